@@ -1432,17 +1432,26 @@ func TestVerifC07(t *testing.T) {
 
 	lap("race")
 
-	// 4b. a child unregisters while a delivery is in progress
+	// 4b. a child unregisters while a delivery is in progress. A panic in one of the MuxAgent's own goroutines
+	// cannot be recovered here and ends the process: the line is written as "crashed" first (fixed width) and
+	// overwritten in place with the result.
 	for n := 3; n <= 5; n++ {
 		for leave := 1; leave < n; leave++ {
-			func() {
+			const width = 48
+			pos, _ := f.Seek(0, 1)
+			fmt.Fprintf(f, "%-*s\n", width, fmt.Sprintf("muxu %d %d crashed", n, leave))
+			_ = f.Sync()
+			res := func() (r string) {
 				defer func() {
 					if x := recover(); x != nil {
-						emit(fmt.Sprintf("muxu %d %d panic", n, leave))
+						r = fmt.Sprintf("muxu %d %d panic", n, leave)
 					}
 				}()
-				emit(vMuxUnregister(n, leave))
+				return vMuxUnregister(n, leave)
 			}()
+			if len(res) <= width {
+				_, _ = f.WriteAt([]byte(fmt.Sprintf("%-*s", width, res)), pos)
+			}
 		}
 	}
 	lap("mux-unregister")
